@@ -10,8 +10,9 @@ import Gp.Lemmas.PacketContract
   of C01, not this file's.)
 
   Definitions (Gp/Lemmas/Packet.lean, PacketContract.lean):
-    `D`                the decoder discipline (needed only for *termination*: without progress eager
-                       decoding recurses without bound — a stack overflow `recover` cannot catch);
+    `DM μ` / `D`       the decoder discipline relative to a termination measure μ / plain progress
+                       (needed only for *termination*: without it eager decoding recurses without
+                       bound — a stack overflow `recover` cannot catch);
     `NoScriptedFail`   no decoder adds a *gopacket.DecodeFailure layer itself;
     `NoSetErr`         no decoder calls SetErrorLayer itself;
     `Contract failed q` the failure contract: failed → the last layer is a DecodeFailure with nil
@@ -38,14 +39,15 @@ theorem eager_total (tab : Table) (fuel : Nat) (data : Bytes) (first : Option De
     simp only
     split <;> simp
 
-/-- Under the discipline D NewPacket (eager) returns a packet, for every input including the empty
-    one (the framework adds no non-termination: depth ≤ |data|+1). -/
-theorem eager_returns (tab : Table) (hD : D tab) (fuel : Nat) (data : Bytes) (first : Option DecId)
-    (hf : data.length + 1 ≤ fuel) : ∃ q, newEager tab fuel true data first = .ok q := by
+/-- Under the discipline (any termination measure μ; `D` = plain progress, μ = input length)
+    NewPacket (eager) returns a packet, for every input including the empty one: the framework adds
+    no non-termination (recursion depth ≤ μ+1). -/
+theorem eager_returns (μ : Measure) (tab : Table) (hD : DM μ tab) (fuel : Nat) (data : Bytes) (first : Option DecId)
+    (hf : ∀ d, first = some d → μ d data.length + 1 ≤ fuel) : ∃ q, newEager tab fuel true data first = .ok q := by
   cases first with
   | none => exact ⟨_, rfl⟩
   | some d =>
-    obtain ⟨r, hr⟩ := eagerDec_terminates tab hD fuel d 0 data.length { data := data } hf
+    obtain ⟨r, hr⟩ := eagerDec_terminates μ tab hD fuel d 0 data.length { data := data } (hf d rfl)
     obtain ⟨p, out⟩ := r
     simp only [newEager, hr]
     cases out with
@@ -58,8 +60,8 @@ theorem lazy_total (tab : Table) (fuel : Nat) (a : Acc) (lp : LPkt) :
 
 /-- Under D every accessor call of every accessor program on a lazy packet returns (no panic, no
     non-termination), for every input including the empty one. -/
-theorem lazy_returns (tab : Table) (hD : D tab) (data : Bytes) (first : DecId) (prog : List Acc)
-    (fuel : Nat) (hf : data.length + 1 ≤ fuel) :
+theorem lazy_returns (μ : Measure) (tab : Table) (hD : DM μ tab) (data : Bytes) (first : DecId) (prog : List Acc)
+    (fuel : Nat) (hf : μ first data.length + 2 ≤ fuel) :
     ∀ ans ∈ runLazy tab true fuel prog (newLazy data (some first)), ans ≠ .panic ∧ ans ≠ .diverge := by
   have key : ∃ q, runLazy tab true fuel prog (newLazy data (some first)) = runEager prog q := by
     by_cases hne : data = []
@@ -72,7 +74,7 @@ theorem lazy_returns (tab : Table) (hD : D tab) (data : Bytes) (first : DecId) (
       exact force_of_none _ _ _ rfl
     · have hlen : data.length ≠ 0 := fun h => hne (List.eq_nil_of_length_eq_zero h)
       obtain ⟨p', out, _, h2⟩ :=
-        eager_force_sim tab hD fuel fuel first 0 data.length { data := data } hlen rfl (by omega) hf
+        eager_force_sim μ tab hD fuel fuel first 0 data.length { data := data } hlen rfl (by omega) hf
       exact ⟨_, (runLazy_force tab fuel prog _ _ h2).1⟩
   obtain ⟨q, hq⟩ := key
   rw [hq]
@@ -147,7 +149,7 @@ theorem set_err_counterexample :
   refine ⟨tab, { data := [1, 2], layers := [l1, l2], last := some l2, failure := some l1 }, ?_, ?_, by decide, by decide, by decide⟩
   · intro d data off len
     match d with
-    | 0 => simp [tab, DBeh, mk, Layer.payLen]; omega
+    | 0 => simp [tab, DBeh, mk, Layer.payLen, lenMeasure]; omega
     | n + 1 => simp [tab, DBeh]
   · intro d data off len l hl
     match d with
